@@ -470,6 +470,7 @@ func c14(args []string) int {
 	out := evid.New("C14")
 	if f.Shard == 0 {
 		c14console(out)
+		c14reentrant(out)
 	}
 	maxE := 3
 	if f.Thorough() {
